@@ -246,6 +246,61 @@ def check_client(ctx, mon, proxy_on, transport, result_value, label):
         ctx.violate("on:client-returned-a-value-for-rejected-payload", case, {"returned": repr(out[1])[:200]})
 
 
+ESCAPED_KEYS = ['"\\u005f_jsonclass__"', '"__\\u006asonclass__"', '"__jsonclass_\\u005f"', '"\\u005f\\u005fjsonclass__"',
+                '"__jsonclas\\u0073__"']
+
+
+def respell(text, rng):
+    """The same JSON value, with the '__jsonclass__' member names written with \\u escapes."""
+    return text.replace('"__jsonclass__"', rng.choice(ESCAPED_KEYS))
+
+
+def check_spelling(ctx, mon, value, fx_on, fx_off, rng):
+    """Metamorphic: how a member name is spelled in the JSON text cannot matter, with the switch on or off."""
+    import jsonrpclib
+    literal = json.dumps({"jsonrpc": "2.0", "id": 1, "method": "echo", "params": [value]})
+    escaped = respell(literal, rng)
+    if escaped == literal or json.loads(escaped) != json.loads(literal):
+        return
+    for label, fx in (("on", fx_on), ("off", fx_off)):
+        outs = []
+        for text in (literal, escaped):
+            mark = fx.log.mark()
+            out, imports, audit, newm, canary = mon.run(lambda: fx.dispatch(text))
+            ran = len(fx.log.since(mark))
+            if out[0] == "ok":
+                # the error message quotes the request text: compare what the reply says, not how it is worded
+                try:
+                    rep = json.loads(out[1]) if out[1] else None
+                except ValueError:
+                    rep = "<not json>"
+                if isinstance(rep, dict) and isinstance(rep.get("error"), dict):
+                    summary = ("error", rep["error"].get("code"))
+                elif isinstance(rep, dict):
+                    summary = ("result", gen.trepr(rep.get("result")))
+                else:
+                    summary = ("other", repr(rep)[:100])
+            else:
+                summary = ("raised", type(out[1]).__name__)
+            outs.append((summary, ran, bool(canary[0]), bool(canary[1])))
+        ctx.case(("spelling", label, escaped))
+        ctx.count("judged:key-spelling")
+        ctx.cell(label, "escaped-key")
+        if outs[0] != outs[1]:
+            ctx.violate("%s:escaped-member-name-treated-differently" % label,
+                        {"switch": label, "side": "server", "body": escaped},
+                        {"literal": [str(x)[:300] for x in outs[0]], "escaped": [str(x)[:300] for x in outs[1]]})
+        for text in (literal, escaped):
+            try:
+                a = ("ok", jsonrpclib.loads(text, fx.config))
+            except Exception as ex:
+                a = ("raise", type(ex).__name__)
+            outs.append(a[0] if a[0] == "raise" else "ok")
+        if outs[2] != outs[3]:
+            ctx.violate("%s:loads-escaped-member-name-treated-differently" % label,
+                        {"switch": label, "side": "loads", "body": escaped}, {"literal": outs[2], "escaped": outs[3]})
+
+
 def run(ctx):
     import jsonrpclib
     import jsonrpclib.config
@@ -339,9 +394,19 @@ def run(ctx):
                    rng.choice([None, {"K": dict}]), "random-name")
     ctx.sample({"switch": "on", "name": "vfcanarymod.Bo;om", "args": [], "expected": "TranslationError before any import"})
 
+    # (A') / (B') the spelling of the member name in the JSON text is irrelevant
+    n = 0
+    spell_descs = [d for d in descriptors if not (isinstance(d, list) and d and isinstance(d[0], str)
+                                                  and d[0].split(".")[0] in ("os", "subprocess", "builtins"))]
+    for desc in spell_descs + [["vfcanary-mod.Boom", []], ["", []], ["é.K", []]]:
+        for depth in (0, 1, 2):
+            n += 1
+            if ctx.mine(n):
+                check_spelling(ctx, mon, embed({"__jsonclass__": copy.deepcopy(desc), "attr": 1}, depth, rng),
+                               fx_on, fx_off, rng)
     # (C) server / client handling of rejected payloads
     n = 0
-    for desc in descriptors + [["vfcanary-mod.Boom", []], ["vfcanarymod.Boom;", []], ["", []], ["é.K", []]]:
+    for desc in spell_descs + [["vfcanary-mod.Boom", []], ["vfcanarymod.Boom;", []], ["", []], ["é.K", []]]:
         for depth in (0, 1, 2):
             n += 1
             if not ctx.mine(n):
@@ -364,7 +429,7 @@ def finalize(m, tier):
     c = m["counters"]
     out = []
     for k, lo in (("monitor:armed-decodes", 3000), ("judged:off-inert", 500), ("judged:invalid-name", 2000),
-                  ("judged:server-rejection", 100), ("judged:client-rejection", 30)):
+                  ("judged:server-rejection", 100), ("judged:client-rejection", 30), ("judged:key-spelling", 50)):
         if c.get(k, 0) < lo:
             out.append("monitor counter %s too low (%d < %d)" % (k, c.get(k, 0), lo))
     for cell in ("off/loads", "off/server", "off/client", "on/short-name", "on/canary+bad-char", "on/server", "on/client"):
